@@ -93,6 +93,17 @@ pub fn worker_main() {
     }
 }
 
+/// user + system CPU time consumed so far by process `pid` (from /proc/<pid>/stat), in seconds
+fn cpu_seconds(pid: u32) -> Option<f64> {
+    let stat = std::fs::read_to_string(format!("/proc/{pid}/stat")).ok()?;
+    // fields after the parenthesised command name; utime and stime are the 14th and 15th fields overall
+    let rest = &stat[stat.rfind(')')? + 2..];
+    let f: Vec<&str> = rest.split(' ').collect();
+    let ticks: f64 = f.get(11)?.parse::<f64>().ok()? + f.get(12)?.parse::<f64>().ok()?;
+    let hz = unsafe { libc::sysconf(libc::_SC_CLK_TCK) } as f64;
+    Some(ticks / if hz > 0.0 { hz } else { 100.0 })
+}
+
 struct Proc {
     child: Child,
     stdin: ChildStdin,
@@ -138,21 +149,36 @@ pub fn run_isolated(text: &str, backend: &str, timeout: Duration) -> Verdict {
             *slot = None;
             return Verdict::Crashed(format!("worker gone before request: {status}"));
         }
-        match p.rx.recv_timeout(timeout) {
-            Ok(line) => match serde_json::from_str::<Resp>(&line) {
-                Ok(r) => Verdict::Done(r),
-                Err(e) => Verdict::Crashed(format!("protocol error: {e}")),
-            },
-            Err(std::sync::mpsc::RecvTimeoutError::Timeout) => {
-                let _ = p.child.kill();
-                let _ = p.child.wait();
-                *slot = None;
-                Verdict::Hang
-            }
-            Err(std::sync::mpsc::RecvTimeoutError::Disconnected) => {
-                let status = p.child.wait().map(|s| format!("{s}")).unwrap_or_default();
-                *slot = None;
-                Verdict::Crashed(status)
+        // the watchdog counts the CPU time the worker spends on this request, not wall time: on a loaded machine a
+        // starved worker must not be taken for a hanging one (wall cap 12 x timeout for a worker that sleeps forever)
+        let pid = p.child.id();
+        let cpu0 = cpu_seconds(pid);
+        let t0 = std::time::Instant::now();
+        loop {
+            match p.rx.recv_timeout(Duration::from_millis(500)) {
+                Ok(line) => {
+                    return match serde_json::from_str::<Resp>(&line) {
+                        Ok(r) => Verdict::Done(r),
+                        Err(e) => Verdict::Crashed(format!("protocol error: {e}")),
+                    }
+                }
+                Err(std::sync::mpsc::RecvTimeoutError::Timeout) => {
+                    let used = match (cpu0, cpu_seconds(pid)) {
+                        (Some(a), Some(b)) => b - a,
+                        _ => t0.elapsed().as_secs_f64(),
+                    };
+                    if used >= timeout.as_secs_f64() || t0.elapsed() >= timeout * 12 {
+                        let _ = p.child.kill();
+                        let _ = p.child.wait();
+                        *slot = None;
+                        return Verdict::Hang;
+                    }
+                }
+                Err(std::sync::mpsc::RecvTimeoutError::Disconnected) => {
+                    let status = p.child.wait().map(|s| format!("{s}")).unwrap_or_default();
+                    *slot = None;
+                    return Verdict::Crashed(status);
+                }
             }
         }
     })
